@@ -712,6 +712,130 @@ def _swap_independent_assigns(tree: ast.Module) -> None:
                     i += 1
 
 
+def _stmt_lists_of(tree: ast.AST):
+    for holder in ast.walk(tree):
+        if isinstance(holder, (ast.Module, ast.ClassDef)):
+            continue
+        for field in ("body", "orelse", "finalbody"):
+            lst = getattr(holder, field, None)
+            if isinstance(lst, list) and lst and isinstance(lst[0], ast.stmt):
+                yield holder, field, lst
+
+
+def _loop_to_comprehension(tree: ast.Module) -> None:
+    """res = []; for v in it: [if c:] res.append(E)   ->   res = [E for v in it [if c]]"""
+    for holder, field, lst in list(_stmt_lists_of(tree)):
+        new = []
+        i = 0
+        while i < len(lst):
+            a = lst[i]
+            b = lst[i + 1] if i + 1 < len(lst) else None
+            done = False
+            if isinstance(a, ast.Assign) and len(a.targets) == 1 and isinstance(a.targets[0], ast.Name) and isinstance(a.value, ast.List) and not a.value.elts \
+                    and isinstance(b, ast.For) and not b.orelse and len(b.body) == 1:
+                name = a.targets[0].id
+                st = b.body[0]
+                cond = None
+                if isinstance(st, ast.If) and not st.orelse and len(st.body) == 1:
+                    cond, st = st.test, st.body[0]
+                if isinstance(st, ast.Expr) and isinstance(st.value, ast.Call) and isinstance(st.value.func, ast.Attribute) and st.value.func.attr == "append" \
+                        and isinstance(st.value.func.value, ast.Name) and st.value.func.value.id == name and len(st.value.args) == 1 \
+                        and not any(isinstance(n, ast.Name) and n.id == name for n in ast.walk(st.value.args[0])) and not (cond is not None and any(isinstance(n, ast.Name) and n.id == name for n in ast.walk(cond))) \
+                        and not any(isinstance(n, ast.Name) and n.id == name for n in ast.walk(b.iter)):
+                    comp = ast.ListComp(elt=st.value.args[0], generators=[ast.comprehension(target=b.target, iter=b.iter, ifs=[cond] if cond is not None else [], is_async=0)])
+                    new.append(ast.Assign(targets=[ast.Name(id=name, ctx=ast.Store())], value=comp, lineno=a.lineno))
+                    i += 2
+                    done = True
+            if not done:
+                new.append(a)
+                i += 1
+        setattr(holder, field, new)
+
+
+def _comprehension_to_loop(tree: ast.Module) -> None:
+    """x = [E for v in it [if c]]   ->   x = []; for v in it: [if c:] x.append(E)     (single generator, statement level, inside functions)"""
+    for fn in ast.walk(tree):
+        if not isinstance(fn, ast.FunctionDef):
+            continue
+        for holder, field, lst in list(_stmt_lists_of(fn)):
+            new = []
+            for st in lst:
+                if isinstance(st, ast.Assign) and len(st.targets) == 1 and isinstance(st.targets[0], ast.Name) and isinstance(st.value, ast.ListComp) and len(st.value.generators) == 1 \
+                        and not st.value.generators[0].is_async and not any(isinstance(n, ast.Name) and n.id == st.targets[0].id for n in ast.walk(st.value)):
+                    g = st.value.generators[0]
+                    name = st.targets[0].id
+                    app = ast.Expr(value=ast.Call(func=ast.Attribute(value=ast.Name(id=name, ctx=ast.Load()), attr="append", ctx=ast.Load()), args=[st.value.elt], keywords=[]))
+                    body = [app]
+                    for c in reversed(g.ifs):
+                        body = [ast.If(test=c, body=body, orelse=[])]
+                    new.append(ast.Assign(targets=[ast.Name(id=name, ctx=ast.Store())], value=ast.List(elts=[], ctx=ast.Load()), lineno=st.lineno))
+                    new.append(ast.For(target=g.target, iter=g.iter, body=body, orelse=[], lineno=st.lineno))
+                else:
+                    new.append(st)
+            setattr(holder, field, new)
+
+
+def _yield_from_to_loop(tree: ast.Module) -> None:
+    """yield from E  ->  for _item in E: yield _item   (statement position)"""
+    for holder, field, lst in list(_stmt_lists_of(tree)):
+        new = []
+        for st in lst:
+            if isinstance(st, ast.Expr) and isinstance(st.value, ast.YieldFrom):
+                new.append(ast.For(target=ast.Name(id="_item", ctx=ast.Store()), iter=st.value.value, body=[ast.Expr(value=ast.Yield(value=ast.Name(id="_item", ctx=ast.Load())))], orelse=[], lineno=st.lineno))
+            else:
+                new.append(st)
+        setattr(holder, field, new)
+
+
+def _loop_to_yield_from(tree: ast.Module) -> None:
+    """for v in E: yield v  ->  yield from E"""
+    for holder, field, lst in list(_stmt_lists_of(tree)):
+        new = []
+        for st in lst:
+            if isinstance(st, ast.For) and not st.orelse and isinstance(st.target, ast.Name) and len(st.body) == 1 and isinstance(st.body[0], ast.Expr) and isinstance(st.body[0].value, ast.Yield) \
+                    and isinstance(st.body[0].value.value, ast.Name) and st.body[0].value.value.id == st.target.id:
+                new.append(ast.Expr(value=ast.YieldFrom(value=st.iter), lineno=st.lineno))
+            else:
+                new.append(st)
+        setattr(holder, field, new)
+
+
+def _any_to_loop(tree: ast.Module) -> None:
+    """return any(C for v in D)  ->  for v in D: if C: return True  \n return False      (and all(..) likewise), single generator without filter"""
+    for holder, field, lst in list(_stmt_lists_of(tree)):
+        new = []
+        for st in lst:
+            v = st.value if isinstance(st, ast.Return) else None
+            if isinstance(v, ast.Call) and isinstance(v.func, ast.Name) and v.func.id in ("any", "all") and len(v.args) == 1 and isinstance(v.args[0], ast.GeneratorExp) and len(v.args[0].generators) == 1 \
+                    and not v.args[0].generators[0].ifs:
+                g = v.args[0].generators[0]
+                is_any = v.func.id == "any"
+                test = v.args[0].elt if is_any else ast.UnaryOp(op=ast.Not(), operand=v.args[0].elt)
+                new.append(ast.For(target=g.target, iter=g.iter, body=[ast.If(test=test, body=[ast.Return(value=ast.Constant(value=is_any))], orelse=[])], orelse=[], lineno=st.lineno))
+                new.append(ast.Return(value=ast.Constant(value=not is_any)))
+            else:
+                new.append(st)
+        setattr(holder, field, new)
+
+
+def _hoist_first_operand(tree: ast.Module) -> None:
+    """if A and B: ...  ->  _c0 = A; if _c0 and B: ...    (the first operand of an `and`/`or` test is evaluated first anyway)"""
+    for fn in ast.walk(tree):
+        if not isinstance(fn, ast.FunctionDef):
+            continue
+        k = 0
+        for holder, field, lst in list(_stmt_lists_of(fn)):
+            new = []
+            for st in lst:
+                if isinstance(st, ast.If) and isinstance(st.test, ast.BoolOp) and not isinstance(holder, (ast.While,)) and not isinstance(st.test.values[0], (ast.Name, ast.Constant)):
+                    name = f"_c{k}"
+                    k += 1
+                    new.append(ast.Assign(targets=[ast.Name(id=name, ctx=ast.Store())], value=st.test.values[0], lineno=st.lineno))
+                    st.test = ast.BoolOp(op=st.test.op, values=[ast.Name(id=name, ctx=ast.Load())] + st.test.values[1:])
+                new.append(st)
+            setattr(holder, field, new)
+
+
 def _transformer(cls):
     def apply(tree: ast.Module) -> None:
         new = cls().visit(tree)
@@ -752,6 +876,12 @@ def generic_equiv(files: List[str]) -> List[Variant]:
             ("literal-ctor", _transformer(_LiteralCtor), "[] -> list(), {} -> dict()"),
             ("append-to-aug", _transformer(_AppendToAug), "x.append(y) -> x += [y]"),
             ("swap-assigns", _fix(_swap_independent_assigns), "adjacent independent assignments exchanged"),
+            ("loop-to-comprehension", _fix(_loop_to_comprehension), "res = []; for v in it: res.append(E) -> res = [E for v in it]"),
+            ("comprehension-to-loop", _fix(_comprehension_to_loop), "x = [E for v in it if c] -> explicit loop with append"),
+            ("yield-from-to-loop", _fix(_yield_from_to_loop), "yield from E -> for _item in E: yield _item"),
+            ("loop-to-yield-from", _fix(_loop_to_yield_from), "for v in E: yield v -> yield from E"),
+            ("any-to-loop", _fix(_any_to_loop), "return any(C for v in D) -> search loop with early return"),
+            ("hoist-first-operand", _fix(_hoist_first_operand), "first operand of an and/or test bound to a local first"),
         ):
             out.append(Variant(f"equiv-{tag}-{short}", [(f, fn)], "nofire", note=note))
     return out
